@@ -695,7 +695,8 @@ class C14(SimSpec):
         "submissions in which the user runs cancel-jobs at a random moment (batches queued / running / some finished / jobs still unsubmitted because of max-nodes or "
         "dependencies), followed by further try-submit-jobs / show-status -n rounds; scancel kills the node at a driver-chosen later point; oracle: no successful sbatch after the "
         "first lock-free observation with is_canceled, every id persisted at cancel-jobs' promotion received scancel, rows present at the cancel are present at the end, never-run "
-        "jobs reported missing at completion; non-trivial = cancel became visible while >= 1 job was unsubmitted and >= 1 batch was active"
+        "jobs reported missing at completion; in a quarter of the runs the completed, canceled submission is then resubmitted by the user (resubmit-jobs --no-failed, then try-submit-jobs and "
+        "show-status again): still no sbatch; non-trivial = cancel became visible while >= 1 job was unsubmitted and >= 1 batch was active"
     )
 
     def gen(self, rng, i, tier):
@@ -709,6 +710,11 @@ class C14(SimSpec):
                 g["batch"] = rng.randint(1, 3)
         scen["user"] = {"try_submit": rng.choice([1, 2, 3]), "show_status": rng.choice([0, 1, 2]), "p": 0.02}
         scen["policy"]["finish_w"] = rng.choice([0.05, 0.2, 1.0])
+        if i % 4 == 3:
+            # once the canceled submission has completed, the user runs resubmit-jobs on it (jobs that never ran), then
+            # try-submit-jobs / show-status again: no batch may follow
+            scen["resubmit_after_cancel"] = rng.choice([1, 1, 2])
+            scen["cancel_complete"] = True
         if i % 8 == 5:
             # a scheduler outage (all status queries of 1-2 rounds fail) before the user cancels: the batches that were active
             # during the outage are still JADE's to cancel
@@ -734,6 +740,7 @@ class C14(SimSpec):
         c["canceled_runs_reaching_completion"] = sum(1 for r in ok if r.get("canceled") and r.get("complete"))
         c["canceled_runs_not_reaching_completion"] = sum(1 for r in ok if r.get("canceled") and not r.get("complete"))
         c["nodes_killed_by_scancel"] = total(ok, "killed_nodes")
+        c["resubmit_jobs_commands_on_a_canceled_submission"] = total(ok, "resub_after_cancel")
         return c
 
     def floors(self, cov):
